@@ -14,9 +14,9 @@
 (* trim) and position t of the link is decode-space sample a0 + t.         *)
 (***************************************************************************)
 EXTENDS VFRead, TLC
-CONSTANTS MaxLinks, Shapes, PPPs, S0s, ETs, Muxes, BIdx, Spans, PLen, ReadLens, MaxCalls, Ops, DiscardVi, Streaming, PinSer, PinBos
-VARIABLES lay, file, vf, dl, last, ncalls, nxt          \* nxt: ghost, [link, lin] = the decode-space sample that must be handed out next (read-through only)
-vars == <<lay, file, vf, dl, last, ncalls, nxt>>
+CONSTANTS MaxLinks, Shapes, PPPs, S0s, ETs, Muxes, BIdx, Spans, Dmg, PLen, ReadLens, MaxCalls, Ops, DiscardVi, Streaming, PinSer, PinBos
+VARIABLES lay, file, vf, dl, last, ncalls, nxt, dmg          \* nxt: ghost, [link, lin] = the decode-space sample that must be handed out next (read-through only)
+vars == <<lay, file, vf, dl, last, ncalls, nxt, dmg>>
 K == [chunk |-> 4, near |-> 3, read |-> 2, backup |-> "begin", handover |-> "refetch", clamp |-> TRUE, discardvi |-> DiscardVi]
 BCat == << <<4, 8>>, <<4, 16>>, <<8, 16>> >>          \* block sizes a link can have (BIdx selects)
 WS == << <<0, 0, 0, 0>>, <<0, 1, 1, 0, 0>>, <<1, 1, 0, 1>>, <<0, 0>>, <<1, 0, 0, 0, 1, 1>>, <<0, 1, 0>> >>
@@ -31,18 +31,18 @@ RECURSIVE Groups(_, _, _)
 Groups(n, ppp, a) == IF a > n THEN <<>> ELSE LET b == IF a + ppp - 1 > n THEN n ELSE a + ppp - 1 IN << <<a, b>> >> \o Groups(n, ppp, b + 1)
 LinkPages(i, c) ==
   LET ws == WS[c.shape]  n == Len(ws)  gs == Groups(n, c.ppp, 1)  ng == Len(gs)  B == BCat[c.b]
-      hdr(s, hp, bos) == [len |-> 1, ser |-> s, gp |-> 0, bos |-> bos, eos |-> FALSE, hp |-> hp, ws |-> <<>>, bs |-> <<>>, cont |-> FALSE, k0 |-> 0]
+      hdr(s, hp, bos) == [len |-> 1, ser |-> s, gp |-> 0, bos |-> bos, eos |-> FALSE, hp |-> hp, ws |-> <<>>, bs |-> <<>>, cont |-> FALSE, tail |-> FALSE, k0 |-> 0]
       vb == hdr(VSer(i), 1, TRUE)
       fb == [hdr(FSer(i), 0, TRUE) EXCEPT !.gp = 0]
-      fd(eos) == [len |-> PLen, ser |-> FSer(i), gp |-> 7, bos |-> FALSE, eos |-> eos, hp |-> 0, ws |-> <<>>, bs |-> <<>>, cont |-> FALSE, k0 |-> 0]
+      fd(eos) == [len |-> PLen, ser |-> FSer(i), gp |-> 7, bos |-> FALSE, eos |-> eos, hp |-> 0, ws |-> <<>>, bs |-> <<>>, cont |-> FALSE, tail |-> FALSE, k0 |-> 0]
       bosp == IF c.mux = 0 THEN <<vb>> ELSE IF c.mux = 2 THEN <<fb, vb>> ELSE <<vb, fb>>
       au(j) == LET a == gs[j][1]  b == gs[j][2]  fin == j = ng
                    gp0 == IF fin THEN Etot(B, ws) + c.s0 - c.et ELSE E(B, ws, b) + c.s0 IN
                [len |-> PLen, ser |-> VSer(i), gp |-> IF gp0 < 0 THEN 0 ELSE gp0, bos |-> FALSE, eos |-> fin, hp |-> 0,
-                ws |-> SubSeq(ws, a, b), bs |-> [x \in 1..(b - a + 1) |-> BK!Bs(B, ws[a + x - 1])], cont |-> FALSE, k0 |-> a]
+                ws |-> SubSeq(ws, a, b), bs |-> [x \in 1..(b - a + 1) |-> BK!Bs(B, ws[a + x - 1])], cont |-> FALSE, tail |-> (c.sp >= 1 /\ j < ng), k0 |-> a]
       \* sp = 1: the first packet of every audio page but the first began on the page before (the page is "continued");
       \* sp = 2: ... and between the two lies a page on which no packet ends at all (no granule position)
-      mid == [len |-> PLen, ser |-> VSer(i), gp |-> -1, bos |-> FALSE, eos |-> FALSE, hp |-> 0, ws |-> <<>>, bs |-> <<>>, cont |-> TRUE, k0 |-> 0]
+      mid == [len |-> PLen, ser |-> VSer(i), gp |-> -1, bos |-> FALSE, eos |-> FALSE, hp |-> 0, ws |-> <<>>, bs |-> <<>>, cont |-> TRUE, tail |-> TRUE, k0 |-> 0]
       RECURSIVE Aud(_)
       Aud(j) == IF j > ng THEN <<>>
                 ELSE (IF c.mux \in {1, 2} /\ j = ng /\ ng >= 2 THEN << fd(TRUE) >> ELSE <<>>)
@@ -53,6 +53,12 @@ RECURSIVE Flat(_, _)
 Flat(ch, i) == IF i > Len(ch) THEN <<>> ELSE LinkPages(i, ch[i]) \o Flat(ch, i + 1)
 RECURSIVE WithOff(_, _, _)
 WithOff(ps, k, o) == IF k > Len(ps) THEN <<>> ELSE << [off |-> o, ours |-> FALSE] @@ ps[k] >> \o WithOff(ps, k + 1, o + ps[k].len)
+\* page sequence numbers: per logical stream, counted from 0
+Numbered(ps) == [k \in 1..Len(ps) |-> [pn |-> Cardinality({ j \in 1..(k - 1) : ps[j].ser = ps[k].ser })] @@ ps[k]]
+\* damage (Dmg): one audio page of ours missing ("drop") or there twice ("dup"); every page stays a well-formed page
+AudioIdx(ps) == { k \in 1..Len(ps) : ps[k].hp = 0 /\ ~ps[k].bos /\ ps[k].ws # <<>> }
+Damaged(ps, d) == IF d.kind = "drop" THEN SubSeq(ps, 1, d.k - 1) \o SubSeq(ps, d.k + 1, Len(ps))
+                  ELSE IF d.kind = "dup" THEN SubSeq(ps, 1, d.k) \o SubSeq(ps, d.k, Len(ps)) ELSE ps
 \* a begin trim needs a first audio page that holds the trimmed samples
 LinkOK(c) == LET ws == WS[c.shape]  B == BCat[c.b]  b1 == IF c.ppp > Len(ws) THEN Len(ws) ELSE c.ppp IN
              /\ (c.s0 < 0 => b1 = 2 /\ b1 < Len(ws) /\ E(B, ws, b1) + c.s0 >= 0)          \* (on a link of one page a short position is an END trim; with three packets on the first page
@@ -62,16 +68,19 @@ LinkOK(c) == LET ws == WS[c.shape]  B == BCat[c.b]  b1 == IF c.ppp > Len(ws) THE
 S0V == <<0, 3, -2>>          \* S0s selects from these (a cfg file cannot hold a negative number)
 Links == { c \in [shape : Shapes, ppp : PPPs, s0 : { S0V[x] : x \in S0s }, et : ETs, mux : Muxes, b : BIdx, sp : Spans] : LinkOK(c) }
 Chains == UNION { [1..n -> Links] : n \in 1..MaxLinks }
-FileOf(ch) ==
-  LET PG == WithOff(Flat(ch, 1), 1, 0)
+FileOf(ch, d) ==
+  LET P0 == Numbered(Flat(ch, 1))
+      PG == WithOff(IF d.kind = "none" THEN P0 ELSE Damaged(P0, d), 1, 0)
       o == Open(PG, { VSer(i) : i \in 1..Len(ch) }, K)
   IN [PG |-> PG, ok |-> o.ok, LT |-> o.links, BL |-> [i \in 1..Len(ch) |-> BCat[ch[i].b]]]
+NoDmg == [kind |-> "none", k |-> 0]
 NoOp == [op |-> "none", arg |-> 0, ret |-> 0, t0 |-> 0, due |-> [link |-> 1, lin |-> 0, on |-> FALSE], rs0 |-> 0, link0 |-> 0]
-Init == lay = <<>> /\ file = <<>> /\ vf = <<>> /\ dl = NoDelivery /\ last = NoOp /\ ncalls = 0 /\ nxt = [link |-> 1, lin |-> 0, on |-> FALSE]
+Init == dmg = NoDmg /\ lay = <<>> /\ file = <<>> /\ vf = <<>> /\ dl = NoDelivery /\ last = NoOp /\ ncalls = 0 /\ nxt = [link |-> 1, lin |-> 0, on |-> FALSE]
 Choose == /\ lay = <<>>
-          /\ \E ch \in Chains :
-               LET f == FileOf(ch) IN
-               /\ lay' = ch /\ file' = f
+          /\ \E ch \in Chains : \E d \in {NoDmg} \cup { [kind |-> kd, k |-> k] : kd \in Dmg, k \in AudioIdx(Numbered(Flat(ch, 1))) } :
+               LET f == FileOf(ch, d) IN
+               /\ (Dmg # {} => d # NoDmg)
+               /\ lay' = ch /\ file' = f /\ dmg' = d
                /\ nxt' = [link |-> 1, lin |-> A0(ch[1]), on |-> TRUE]
                /\ IF f.ok THEN LET o == IF Streaming THEN OpenedStreaming(f.PG, f.LT, f.BL) ELSE Opened(f.PG, f.LT, f.BL) IN vf' = [o.vf EXCEPT !.pinser = PinSer, !.pinbos = PinBos] /\ last' = [NoOp EXCEPT !.op = "open", !.ret = o.ret]
                   ELSE vf' = <<>> /\ last' = [NoOp EXCEPT !.op = "open", !.ret = -1]
@@ -84,7 +93,7 @@ NxtAfter(op, r) ==
   ELSE IF r.dl.n = 0 \/ ~nxt.on \/ r.dl.hs = 1 THEN nxt
   ELSE LET c == lay[r.dl.link]  e == LinOf(r.dl) + r.dl.n IN
        IF e >= A0(c) + N(c) THEN [link |-> r.dl.link + 1, lin |-> IF r.dl.link < Len(lay) THEN A0(lay[r.dl.link + 1]) ELSE 0, on |-> TRUE] ELSE [link |-> r.dl.link, lin |-> e, on |-> TRUE]
-Step(op, arg, r) == /\ nxt' = NxtAfter(op, r) /\ vf' = r.vf /\ last' = [op |-> op, arg |-> arg, ret |-> r.ret, t0 |-> vf.off, due |-> nxt, rs0 |-> vf.rs, link0 |-> vf.link] /\ ncalls' = ncalls + 1 /\ UNCHANGED <<lay, file>>
+Step(op, arg, r) == /\ nxt' = NxtAfter(op, r) /\ vf' = r.vf /\ last' = [op |-> op, arg |-> arg, ret |-> r.ret, t0 |-> vf.off, due |-> nxt, rs0 |-> vf.rs, link0 |-> vf.link] /\ ncalls' = ncalls + 1 /\ UNCHANGED <<lay, file, dmg>>
 DoRead == "read" \in Ops /\ Live /\ \E len \in ReadLens : LET r == Read(file.PG, file.LT, file.BL, vf, len) IN Step("read", len, r) /\ dl' = r.dl
 DoRaw == "raw" \in Ops /\ Live /\ \E p \in 0..DataEnd(file.PG) : LET r == RawSeek(file.PG, file.LT, file.BL, vf, p) IN Step("raw", p, r) /\ dl' = NoDelivery
 DoPcm == "pcm" \in Ops /\ Live /\ \E t \in 0..Total(file.LT) : LET r == PcmSeek(file.PG, file.LT, file.BL, vf, t, K) IN Step("pcm", t, r) /\ dl' = NoDelivery
@@ -95,6 +104,15 @@ Next == Choose \/ DoRead \/ DoRaw \/ DoPcm \/ DoPage \/ DoHalf \/ DoLap
 Spec == Init /\ [][Next]_vars
 
 Chosen == lay # <<>>
+\* on a file with a page missing or doubled there is no truth to hold the audio against here; what must hold: every call ends, answers with a count or a
+\* documented code, and the position stays inside the stream (or unknown)
+DamagedCallsBehave == Chosen /\ dmg # NoDmg /\ last.op \notin {"none", "open"} =>
+  /\ last.ret # -999
+  /\ (last.ret >= 0 \/ last.ret \in {OV_HOLE, OV_EOF, OV_EINVAL, OV_EBADLINK, OV_EBADPACKET, OV_EFAULT})
+  \* (nothing is demanded of the POSITION on such a file: it is "granule position of the page minus what is pending" without a floor and comes out a few
+  \*  samples below zero behind a page that is there twice; and a gap met while a sample seek discards samples is taken for the end of the stream -
+  \*  position := total - although samples still follow, so that reading on moves it past the total.  Every user of the position copes, see ov_time_tell)
+  /\ (last.op = "read" => last.ret >= 0 \/ last.ret = OV_HOLE)
 StartOf(i) == SumLen(file.LT, i - 1)
 NoLoopBoundHit == last.ret # -999
 OpenOK == Chosen => /\ file.ok /\ Len(file.LT) = Len(lay) /\ \A i \in 1..Len(lay) : file.LT[i].len = N(lay[i])
